@@ -18,6 +18,23 @@ REQUIRED_MONITORS = ["orthant.projection", "ball.projection", "ball.degenerate",
 KINDS = ["orthant", "ball", "ball_jac", "residual", "proxpar", "purity"]
 
 
+def _sphere(rng, r, ctx=None):
+    """Sphere with friction coefficient r; in a third of the cases the object is created with another coefficient (a friction
+    sweep re-using one law object, a law switched on later, a copy that is changed) and r is assigned afterwards"""
+    from cardillo.math.prox import Sphere
+    import copy
+    c = int(rng.integers(6))
+    if c == 0:
+        S = Sphere(float(rng.uniform(0, 2) * (r + 0.3))); S.r = r
+    elif c == 1:
+        S = copy.deepcopy(Sphere(0.0 if rng.random() < 0.5 else r * 3 + 1.0)); S.r = r
+    else:
+        return Sphere(r)
+    if ctx is not None:
+        ctx.cls("ball:coefficient_assigned_after_construction")
+    return S
+
+
 def cases(tier, seed):
     n = {"quick": 400, "thorough": 12000}[tier]
     return [{"kind": KINDS[i % len(KINDS)], "batch": 25} for i in range(n)]
@@ -143,7 +160,7 @@ def run_case(spec, ctx):
                 fac = [0.5, 1 - 1e-12, 1.0, 1 + 1e-12, 2.0, 1e6][int(rng.integers(6))]
                 x = d * radius * fac
             zz = np.array([z]) if rng.random() < 0.5 else z
-            S = Sphere(r)
+            S = _sphere(rng, r, ctx)
             x0 = x.copy()
             p = np.asarray(S.prox(x, zz), dtype=float)
             y = _vec(rng, n) if rng.random() < 0.5 else x + rng.normal(size=n) * 1e-3 * (np.abs(x).max() + 1e-300)
@@ -190,7 +207,7 @@ def run_case(spec, ctx):
                 fac = None
             arg = d * (radius * fac if radius > 0 else loguniform(rng, 1e-2, 1e2))
             x = (arg + y) / rho
-            S = Sphere(r)
+            S = _sphere(rng, r, ctx)
             zz = np.array([z])
             act = S.active_set(x, y, zz, rho)
             # distance from the boundary (relative)
@@ -258,7 +275,7 @@ def run_case(spec, ctx):
                 ctx.violation("NegativeOrthant.Jacobian", "not the derivative of the active-set residual", {"active": act})
             # ball
             r = float(rng.uniform(0, 1)); z = _z(rng)
-            S = Sphere(r)
+            S = _sphere(rng, r, ctx)
             zz = np.array([z])
             a2 = S.active_set(x, y, zz, rho)
             res2 = np.asarray(S.residual(x, y, zz, rho, a2), dtype=float)
@@ -272,6 +289,10 @@ def run_case(spec, ctx):
             from scipy.sparse import csc_array, coo_array
             nu = int(rng.integers(1, 9))
             cols = int(rng.integers(0, min(nu, 6) + 1))
+            if rng.random() < 0.15:
+                # many bodies with many active contacts: dozens of force directions
+                nu = int(rng.integers(30, 90))
+                cols = int(rng.integers(20, nu + 1))
             Q, _ = np.linalg.qr(rng.normal(size=(nu, nu)))
             cond = loguniform(rng, 1, 1e8)
             ev = np.exp(rng.uniform(0, np.log(cond), size=nu)) * loguniform(rng, 1e-3, 1e3)
